@@ -276,6 +276,39 @@ def generate():
     if "clid = self.tracker.clid" not in ast.unparse(cr) or "slicer = call.CallSlicer(reqID, clid, methodName, args, kwargs)" not in ast.unparse(cr):
         raise P.Untranslatable("RemoteReference._callRemote no longer addresses the call with self.tracker.clid")
 
+    # ---- util.AsyncAND: the barrier on which a container / a call waits until every gift inside it has been introduced.
+    # Shape: where is `remaining` established relative to the subscriptions (an input that has ALREADY fired runs its
+    # callback synchronously inside addCallbacks)
+    ut = P.load("util.py")
+    ai = P.find_def(ut, "AsyncAND.__init__")
+    loops = [n for n in ai.body if isinstance(n, ast.For)]
+    if len(loops) != 1 or "addCallbacks(self._cbDeferred, self._cbDeferred" not in ast.unparse(loops[0]):
+        raise P.Untranslatable("AsyncAND.__init__: expected one loop subscribing _cbDeferred to every input")
+    pre = [ast.unparse(x) for x in ai.body[:ai.body.index(loops[0])]]
+    inloop = [ast.unparse(x) for x in loops[0].body]
+    if "self.remaining = len(deferredList)" in pre and not any("self.remaining" in x for x in inloop):
+        andinit = "CountBeforeSubscribing"
+        if not any(x.startswith("if not deferredList:") and "self.callback(None)" in x and "return" in x for x in pre):
+            raise P.Untranslatable("AsyncAND.__init__: the empty list no longer fires at once")
+    elif "self.remaining = 0" in pre and "self.remaining += 1" in inloop and inloop.index("self.remaining += 1") == 0:
+        andinit = "CountWhileSubscribing"
+    else:
+        raise P.Untranslatable("AsyncAND.__init__: unrecognised way of counting the inputs: %r / %r" % (pre, inloop))
+    out.append("Inductive andinit := CountBeforeSubscribing | CountWhileSubscribing.")
+    out.append("Definition asyncand_init : andinit := %s." % andinit)
+    cbd = P.find_def(ut, "AsyncAND._cbDeferred")
+    st = body_stmts(cbd)
+    if len(st) != 2 or ast.unparse(st[0]) != "self.remaining -= 1" or not isinstance(st[1], ast.If) \
+            or ast.unparse(st[1].test) != "succeeded" or not isinstance(st[1].body[0], ast.If) \
+            or ast.unparse(st[1].body[0].test) != "not self._fired and self.remaining == 0" \
+            or "self.callback(None)" not in ast.unparse(st[1].body[0]):
+        raise P.Untranslatable("AsyncAND._cbDeferred: unexpected shape")
+    # who waits on it: containers and calls combine the ready_deferreds of their children with AsyncAND
+    for rel, qual in (("call.py", "CallUnslicer.receiveClose"), ("call.py", "ArgumentUnslicer.receiveClose"),
+                      ("slicers/tuple.py", "TupleUnslicer.receiveClose")):
+        if "AsyncAND(" not in ast.unparse(P.find_def(P.load(rel), qual)):
+            raise P.Untranslatable("%s no longer waits for its children with AsyncAND" % qual)
+
     # ---- finish(): which tables are emptied on connection loss
     fi = P.find_def(bro, "Broker.finish")
     cleared = [ast.unparse(s.targets[0])[5:] for s in fi.body if isinstance(s, ast.Assign) and len(s.targets) == 1
